@@ -46,7 +46,8 @@ DEnd == /\ End /\ DSame
         \* everything sent was taken; an actor that was not told to stop is still there
         /\ \A i \in 1..Len(Ev.fin) : LET a == Ev.fin[i].x IN
              (ac[a].mq = <<>> \/ ac[a].pc = "dead") /\ nsent[a] = Ev.fin[i].sent
-             /\ (dev = {} => ac[a].pc = "idle")
+             \* (or its handler failed on a decodable message: a failure like any other)
+             /\ (dev = {} => (ac[a].pc = "idle" \/ (ac[a].pc = "dead" /\ ac[a].exitK \in {"err", "panic"})))
 
 DReset == Reset /\ bad' = {} /\ flavour' = "send"
 DNext == \/ DReset \/ PlanEv \/ DropEv \/ DropSilent \/ DevEv \/ DEnd
